@@ -1694,12 +1694,21 @@ var opForward = []struct{ fn, callee string }{
 	{fCli + "WriteAt", fCli + "operation"}, {fCli + "ReadAt", fCli + "operation"}, {fCli + "Sync", fCli + "operation"}, {fCli + "Unmap", fCli + "operation"}, {fCli + "Ping", fCli + "operation"},
 	{fSrv + "WriteAt", fRep + "WriteAt"}, {fSrv + "ReadAt", fRep + "ReadAt"}, {fSrv + "Sync", fRep + "Sync"}, {fSrv + "Unmap", fRep + "Unmap"},
 	{fRep + "WriteAt", "invoke:WriteAt"}, {fRep + "ReadAt", "invoke:ReadAt"}, {fRep + "Sync", "invoke:Sync"}, {fRep + "Unmap", "invoke:Unmap"},
+	// protocol reads that must not be answered from a cache: the answer changes behind the caller's back
+	{"(*backend/remote.Remote).info", "(*net/http.Client).Do"},
+	{"(*backend/dynamic.Factory).VerifyReplicaAlive", "invoke:VerifyReplicaAlive"},
+	{"(*backend/dynamic.Factory).Create", "invoke:Create"},
+	{"(*backend/dynamic.Factory).SignalToAdd", "invoke:SignalToAdd"},
+	{"(*sync/agent.Server).CreateProcess", "(*sync/agent.Server).launch"},
 }
 
 // opForwardExceptions: "<function> | <position of the return>" is not usable (positions move); the
 // exceptions are therefore conditions: atoms under which a success return without the call is
 // the confirmed behaviour.
 var opForwardAtoms = map[string][]string{
+	// no tcp factory configured (file backend only): nothing to signal / probe
+	"(*backend/dynamic.Factory).SignalToAdd":        {`!has($0.factories,"tcp")`},
+	"(*backend/dynamic.Factory).VerifyReplicaAlive": {`!has($0.factories,"tcp")`},
 	// a quorum replica keeps no data: its Replica acknowledges without touching a volume
 	fRep + "WriteAt": {`+"quorum" -$0.ReplicaType ==0`},
 	fRep + "Sync":    {`+"quorum" -$0.ReplicaType ==0`},
@@ -1731,6 +1740,20 @@ func ruleOpForward(rule string) ruleFn {
 				}
 			} else {
 				need.Calls = []string{of.callee}
+				// ... or started in a goroutine of its own (the sync agent launches its child processes so)
+				callee := of.callee
+				need.Instr = func(in ssa.Instruction) bool {
+					g, ok := in.(*ssa.Go)
+					if !ok {
+						return false
+					}
+					if mc, ok := g.Call.Value.(*ssa.MakeClosure); ok {
+						if cl, ok := mc.Fn.(*ssa.Function); ok {
+							return len(CallsTo(cl, callee)) > 0
+						}
+					}
+					return callMatches(g, callee)
+				}
 			}
 			if as := opForwardAtoms[of.fn]; len(as) > 0 {
 				need.Atoms = as
